@@ -162,6 +162,7 @@ namespace pika::threads::detail {
                 thrd = heap->back();
                 heap->pop_back();
                 threads::detail::get_thread_id_data(thrd)->rebind(data);
+                PIKA_VERIF_POINT("tq.recycle", threads::detail::get_thread_id_data(thrd), 0, 0);
             }
             else
 # else
@@ -776,6 +777,7 @@ namespace pika::threads::detail {
             {
                 thrd.reset(next_thrd, false);    // do not addref!
                 --work_items_count_.data_;
+                PIKA_VERIF_POINT("tq.pop", next_thrd, steal, 0);
                 return true;
             }
 #endif
@@ -796,6 +798,7 @@ namespace pika::threads::detail {
 #else
             // detach the thread from the id_ref without decrementing
             // the reference count
+            PIKA_VERIF_POINT("tq.schedule", threads::detail::get_thread_id_data(thrd), other_end, 0);
             work_items_.push(thrd.detach(), other_end);
 #endif
         }
@@ -804,6 +807,7 @@ namespace pika::threads::detail {
         void destroy_thread(threads::detail::thread_data* thrd)
         {
             PIKA_ASSERT(&thrd->get_queue<thread_queue>() == this);
+            PIKA_VERIF_POINT("tq.destroy", thrd, 0, 0);
 
 #ifdef PIKA_HAVE_THREAD_STACK_MMAP
             terminated_items_.push(thrd);
